@@ -91,11 +91,20 @@ def run(rep: vk.Report):
     nums, nmeta = [], []
     solves = diffs = 0
     lin_bad = 0
-    for i in range(n):
-        r = random.Random(rng.random())
-        g = gen.Gen(r, profile="all", pool=gen.Pool(r, with_params=True, with_matrices=False))
+    def sources():
+        for g, e in common.corpus(rng, rep.tier, 0, focus_profile="all", focus_scale=0.3, pool_kwargs={"with_matrices": False}):
+            yield g, e
+        for _ in range(n):
+            r0 = random.Random(rng.random())
+            g = gen.Gen(r0, profile="all", pool=gen.Pool(r0, with_params=True, with_matrices=False))
+            try:
+                yield g, param_expr(g, r0)
+            except Exception:
+                continue
+
+    for i, (g, e) in enumerate(sources()):
+        r = g.rng
         try:
-            e = param_expr(g, r)
             Ss = ser.Ser()
             te = Ss.expr(e)
         except Exception:
@@ -114,6 +123,20 @@ def run(rep: vk.Report):
         # everything compiled / derived BEFORE any update
         C._compile_cached.cache_clear()
         f = C.compile_expression(e, V)
+        # the explicit-stack builders (used for deep trees) forced from outside, also BEFORE any update
+        oc, oa = C._RECURSION_THRESHOLD, AD._RECURSION_THRESHOLD
+        try:
+            C._RECURSION_THRESHOLD = 0
+            AD._RECURSION_THRESHOLD = 0
+            C._compile_cached.cache_clear()
+            f_it = C.compile_expression(e, V)
+            gtrees_it = [AD.gradient(e, v) for v in V]
+            jf_it = AD.compile_jacobian([e], V)
+        except Exception:
+            f_it, gtrees_it, jf_it = None, None, None
+        finally:
+            C._RECURSION_THRESHOLD, AD._RECURSION_THRESHOLD = oc, oa
+            C._compile_cached.cache_clear()
         gf = C.compile_gradient(e, V)
         jf = AD.compile_jacobian([e], V)
         hf = AD.compile_hessian(e, V) if len(V) <= 3 else None
@@ -142,10 +165,14 @@ def run(rep: vk.Report):
                     obs_val = [common.fval(e.evaluate(pt)), common.fval(f(x)), common.fval(C.compile_expression(e, V)(x))]
                     if seam is not None:
                         obs_val.append(common.fval(seam["fun"](x)))
+                    if f_it is not None:
+                        obs_val.append(common.fval(f_it(x)))
                     G = np.asarray(gf(x), dtype=float).reshape(-1)
                     J = np.asarray(jf(x), dtype=float).reshape(-1)
                     SJ = np.asarray(seam["jac"](x), dtype=float).reshape(-1) if seam is not None and seam["jac"] is not None else None
                     GT = [common.fval(t.evaluate(pt)) for t in gtrees]
+                    GTI = [common.fval(t.evaluate(pt)) for t in gtrees_it] if gtrees_it is not None else None
+                    JI = np.asarray(jf_it(x), dtype=float).reshape(-1) if jf_it is not None else None
                     H = np.asarray(hf(x), dtype=float) if hf is not None else None
                 except Exception:
                     continue
@@ -155,6 +182,7 @@ def run(rep: vk.Report):
                 nmeta.append(dict(meta, what="value: evaluate / compiled-before / compiled-after / seam fun", values=obs_val))
             for j, nm in enumerate(names):
                 obs = [float(G[j]), float(J[j])] + ([float(SJ[j])] if SJ is not None else []) + ([GT[j]] if GT[j] is not None else [])
+                obs += ([GTI[j]] if GTI is not None and GTI[j] is not None else []) + ([float(JI[j])] if JI is not None else [])
                 if all(np.isfinite(obs)):
                     nums.append(f"({te}, (Some {ser.s(nm)}, None), {common.pts_term(pt)}, {common.pts_term(ppts)}, {ser.lst(ser.q(v) for v in obs)})")
                     nmeta.append(dict(meta, what=f"d/d{nm}: compile_gradient / compile_jacobian / seam jac / cached tree", values=obs))
